@@ -8,4 +8,6 @@ HARNESSES = [
     dict(name='codec', need_schema=True),
     dict(name='timer', need_lib=True, extra_flags=['-ldl']),
     dict(name='xmlh', need_lib=True, deps=['runtime/xml.cpp']),
+    dict(name='logh', need_lib=True, extra_flags=['-ldl']),
+    dict(name='sched', need_lib=True, extra_flags=['-ldl']),
 ]
